@@ -480,3 +480,85 @@ func RunStandalone(kind, script string, timeout time.Duration) string {
 		return "unknown"
 	}
 }
+
+// SolveStandalone runs a fresh solver on a complete script and, when sat,
+// returns the values of the wanted terms (a fallback for queries on which the
+// incremental process answers unknown).
+func SolveStandalone(kind string, tt *TermTable, roots []*Term, want []*Term, timeout time.Duration) (string, map[int]*big.Int) {
+	script := tt.Standalone(roots)
+	// make sure every wanted term is defined in the script
+	extra := ""
+	defined := map[int]bool{}
+	for _, t := range Topo(roots, nil) {
+		defined[t.id] = true
+	}
+	declared := map[string]bool{}
+	vars, _ := VarsOf(roots)
+	for _, v := range vars {
+		declared[v.name] = true
+	}
+	var ask []*Term
+	for _, w := range want {
+		if w.op == OVar {
+			if !declared[w.name] {
+				continue // unconstrained: any value
+			}
+			ask = append(ask, w)
+		}
+	}
+	_ = defined
+	var sb strings.Builder
+	sb.WriteString("(set-option :produce-models true)\n")
+	sb.WriteString(script)
+	sb.WriteString(extra)
+	for _, w := range ask {
+		sb.WriteString("(echo \"@v\")\n(get-value (" + w.ref() + "))\n")
+	}
+	var cmd *exec.Cmd
+	ms := int(timeout / time.Millisecond)
+	switch kind {
+	case "z3":
+		cmd = exec.Command("z3", "-in", fmt.Sprintf("-t:%d", ms))
+	default:
+		cmd = exec.Command("z3-new", "-in", fmt.Sprintf("-t:%d", ms))
+	}
+	cmd.Stdin = strings.NewReader(sb.String())
+	done := make(chan []byte, 1)
+	go func() {
+		out, _ := cmd.CombinedOutput()
+		done <- out
+	}()
+	var out []byte
+	select {
+	case out = <-done:
+	case <-time.After(timeout + 5*time.Second):
+		if cmd.Process != nil {
+			cmd.Process.Kill()
+		}
+		return "unknown", nil
+	}
+	txt := string(out)
+	res := "unknown"
+	first := strings.SplitN(txt, "@v", 2)[0]
+	for _, l := range strings.Split(first, "\n") {
+		switch strings.TrimSpace(l) {
+		case "sat", "unsat":
+			res = strings.TrimSpace(l)
+		}
+	}
+	if res != "sat" {
+		return res, nil
+	}
+	vals := map[int]*big.Int{}
+	parts := strings.Split(txt, "@v")
+	for i, p := range parts[1:] {
+		if i >= len(ask) {
+			break
+		}
+		p = strings.TrimSpace(strings.Trim(strings.TrimSpace(p), "\""))
+		if v, err := parseGetValue(p, ask[i].sort); err == nil {
+			vals[ask[i].id] = v
+		}
+	}
+	return res, vals
+}
